@@ -496,4 +496,103 @@ def owns_viewpoint(repo: Repo) -> RuleRun:
 owns_viewpoint.rule_id = "C18.OWNS-VIEWPOINT"
 
 
-RULES = [scan, corner_table, frame_signs, triangle_partition, affine_kinds, stale_alias, no_stale_lazy_cache, orthogonal_frame, side_priority, live_queries, flag_truthiness, owns_viewpoint]
+def scale_free_tests(repo: Repo) -> RuleRun:
+    """'for blocks of any size': the re-orienter's small-number tests are tests of lengths."""
+    from ..dims import scale_free_module_rule
+
+    return scale_free_module_rule(repo, PROP, "C18.SCALE-FREE-TESTS", ("modify.reorient.viewpoint",))
+
+
+scale_free_tests.rule_id = "C18.SCALE-FREE-TESTS"
+
+
+def view_frame_exact(repo: Repo) -> RuleRun:
+    """'the side facing the observer becomes front and the side facing the ceiling point top': the observer has priority - 'front' is
+    the direction from the block to the observer AS GIVEN, and the ceiling direction is bent until it is at right angles with it
+    (never the other way round). Exact rational evaluation of ViewpointReorienter._get_normals for an observer and a ceiling point
+    that are far from perpendicular (Pythagorean directions, so every unit vector on the way is rational)."""
+    from fractions import Fraction
+
+    from .. import exact
+
+    r = RuleRun(PROP, "C18.VIEW-FRAME-EXACT", floor=4, what="_get_normals: front = unit(observer - centre) exactly; top = the ceiling direction made perpendicular to it; left = front x top (exact rational evaluation)")
+    cls = repo.cls("modify.reorient.viewpoint.ViewpointReorienter")
+    fn = repo.find_method(cls, "_get_normals")
+    r.require(fn is not None, "ViewpointReorienter._get_normals vanished")
+
+    def hook(ev, call, name):
+        nm = (name or "").split(".")[-1]
+        if nm in ("array", "asarray", "copy") and call.args:
+            return ev.eval(call.args[0])
+        return NO_MATCH
+
+    centre = exact.vec(Fraction(1, 2), -1, Fraction(2, 3))
+    cases = [
+        ("ceiling leaning 37 degrees towards the observer", (0, -10, 0), (0, -3, 4), (0, -1, 0), (0, 0, 1)),
+        ("ceiling leaning away from the observer", (0, -10, 0), (0, 3, 4), (0, -1, 0), (0, 0, 1)),
+        ("oblique observer", (6, 0, 8), (0, 0, 5), (Fraction(3, 5), 0, Fraction(4, 5)), (Fraction(-4, 5), 0, Fraction(3, 5))),
+        ("perpendicular already", (0, -10, 0), (0, 0, 7), (0, -1, 0), (0, 0, 1)),
+    ]
+    for label, obs, ceil_, want_front, want_top in cases:
+        this = Obj("reorienter", cls=cls)
+        this.set("observer", centre + exact.vec(*obs))
+        this.set("ceiling", centre + exact.vec(*ceil_))
+        ev = exact.evaluator(repo, fn.module, extra=hook)
+        try:
+            got = ev.call_funcinfo(fn, [this, centre])
+        except (Raised, NotEvaluable) as err:
+            raise AnalysisError(f"_get_normals not evaluable over exact rational points ({label}): {err}") from err
+        r.require(isinstance(got, dict) and {"front", "top", "left"} <= set(got), "_get_normals does not return the six named directions")
+        wf, wt = exact.vec(*want_front), exact.vec(*want_top)
+        ok = exact.same(got["front"], wf) and exact.same(got["top"], wt) and exact.same(got["left"], wf.cross(wt)) and exact.same(got["back"], wf.scale(exact.c(-1))) and exact.same(got["bottom"], wt.scale(exact.c(-1)))
+        r.check(
+            ok,
+            fn,
+            f"{label}: front towards the observer, top bent to a right angle",
+            f"_get_normals, {label} (observer at centre + {obs}, ceiling at centre + {ceil_}): front = {[str(exact.value(x)) for x in got['front'].c]}, top = {[str(exact.value(x)) for x in got['top'].c]}; "
+            f"expected front {[str(x) for x in want_front]} (the observer's direction, untouched) and top {[str(x) for x in want_top]}: the observer direction is bent instead of the ceiling direction, "
+            "so with a ceiling point that leans towards the observer the side facing the observer is numbered 'top'",
+            fn.node,
+            key=f"frame:{label}",
+        )
+    return r
+
+
+view_frame_exact.rule_id = "C18.VIEW-FRAME-EXACT"
+
+
+def accept_by_distance(repo: Repo) -> RuleRun:
+    """'find_in_sphere returns exactly the vertices within the radius': whatever quick rejections come first, a vertex is ACCEPTED only
+    through the distance test norm(vertex - position) < radius - the test is not one alternative of an `or` (an inscribed-cube
+    shortcut with the 2-D constant 1/sqrt(2) lets through vertices up to 1.22 r away in diagonal directions)."""
+    from ..model import parent as _parent
+
+    r = RuleRun(PROP, "C18.ACCEPT-BY-DISTANCE", floor=1, what="in FinderBase._find_by_position the distance test is a necessary condition of acceptance (never bypassed through an `or`)")
+    fn = repo.func("modify.find.finder.FinderBase._find_by_position")
+    tests = [c for c in ast.walk(fn.node) if isinstance(c, ast.Compare) and len(c.ops) == 1 and isinstance(c.ops[0], (ast.Lt, ast.LtE)) and any(isinstance(x, ast.Call) and (attr_chain(x.func) or "").split(".")[-1] == "norm" for x in ast.walk(c.left)) and isinstance(c.comparators[0], ast.Name) and c.comparators[0].id == "radius"]
+    r.require(len(tests) >= 1, "_find_by_position: the distance test norm(...) < radius was not found")
+    for k, t in enumerate(tests):
+        p_ = _parent(t)
+        bypass = None
+        while p_ is not None and not isinstance(p_, ast.stmt):
+            if isinstance(p_, ast.BoolOp) and isinstance(p_.op, ast.Or):
+                bypass = p_
+            if isinstance(p_, ast.UnaryOp) and isinstance(p_.op, ast.Not):
+                bypass = bypass or p_
+            p_ = _parent(p_)
+        r.check(
+            bypass is None,
+            fn,
+            f"'{ast.unparse(t)[:50]}' is necessary for acceptance",
+            f"FinderBase._find_by_position accepts a vertex through '{ast.unparse(bypass)[:90] if bypass is not None else ''}': the distance test is only one alternative, the other lets vertices through that are farther "
+            "away than the radius (diagonal directions between r and 1.22 r for an inscribed cube of half-side r / sqrt(2))",
+            t,
+            key=f"distance#{k}",
+        )
+    return r
+
+
+accept_by_distance.rule_id = "C18.ACCEPT-BY-DISTANCE"
+
+
+RULES = [scan, corner_table, frame_signs, triangle_partition, affine_kinds, stale_alias, no_stale_lazy_cache, orthogonal_frame, side_priority, live_queries, flag_truthiness, owns_viewpoint, scale_free_tests, view_frame_exact, accept_by_distance]
